@@ -1,9 +1,218 @@
-/- Driver operations for C05 (stub: to be filled by the property's model). -/
+/-
+Driver operations for C05 (grafting): the model `Model/Graft.lean` executed
+
+* at `Float` (binary64; `scalar = "f64"`): tensors cross as float32 bit patterns and are widened exactly, the
+  configuration scalars as binary64 bit patterns (the Python floats of the options); policy TOL;
+* at tracked rationals `TR` (`scalar = "exact"`): exact `Rat` arithmetic (the instance the theorems cover, with an
+  exact rational square root) where every value carries a flag "every intermediate so far was exact for the
+  square root and lies within 2⁻⁴⁰ (relative) of a float32 value". On flagged outputs the float32
+  implementation performs no rounding other than absorbing the tiny `ε` constants, hence must equal the
+  rational result rounded once to float32 — policy EXACT-DYADIC.
+
+Ops: `ds_run` (fold of `dsTransform` over a gradient history for one parameter), `tf_run` (fold of
+`tfTransform`), `skip` (`dsSkip` / `tfMaskSkipped`). Mathlib-free.
+-/
 import PrecondVerif.Kit.Proto
+import PrecondVerif.Model.Graft
 
 namespace PrecondVerif.Drv.C05
-open Lean PrecondVerif.Proto
+open Lean PrecondVerif.Proto PrecondVerif.Graft
 
-def ops : List Op := []
+/-! ### exact rationals with an exactness flag -/
+
+/-- exact value of a finite IEEE-754 binary32 bit pattern -/
+def f32ToRat (bits : Nat) : R Rat :=
+  let neg : Bool := bits / 2 ^ 31 % 2 == 1
+  let e : Nat := bits / 2 ^ 23 % 256
+  let m : Nat := bits % 2 ^ 23
+  if e = 255 then .error "non-finite float32 in input" else
+  let mant : Nat := if e = 0 then m else m + 2 ^ 23
+  let ex : Int := if e = 0 then -149 else (e : Int) - 150
+  let mag : Rat := (mant : Rat) * (2 : Rat) ^ ex
+  .ok (if neg then -mag else mag)
+
+def ratAbs (q : Rat) : Rat := if q < 0 then -q else q
+
+/-- `q` is zero or within `2⁻⁴⁰·|q|` of a normal float32 value of moderate exponent. -/
+def nearF32 (q : Rat) : Bool :=
+  if q = 0 then true else
+  let a := ratAbs q
+  let e0 : Int := (Nat.log2 a.num.natAbs : Int) - (Nat.log2 a.den : Int)
+  let e : Int := if a < (2 : Rat) ^ e0 then e0 - 1 else if (2 : Rat) ^ (e0 + 1) ≤ a then e0 + 1 else e0
+  if e < -100 || e > 100 then false else
+  let s : Rat := a / (2 : Rat) ^ (e - 23)
+  let m : Int := (s + 1 / 2).floor
+  decide (ratAbs (s - (m : Rat)) ≤ 1 / 65536)
+
+/-- exact square root of a rational, if it has one -/
+def ratSqrt? (q : Rat) : Option Rat :=
+  if q < 0 then none else
+  let n := q.num.natAbs
+  let d := q.den
+  let rn := Nat.sqrt n
+  let rd := Nat.sqrt d
+  if rn * rn = n ∧ rd * rd = d then some ((rn : Rat) / (rd : Rat)) else none
+
+structure TR where
+  v : Rat
+  ok : Bool
+
+namespace TR
+def mk' (v : Rat) (ok : Bool) : TR := ⟨v, ok && nearF32 v⟩
+def exactZero (a : TR) : Bool := a.ok && a.v == 0
+instance : Add TR := ⟨fun a b => mk' (a.v + b.v) (a.ok && b.ok)⟩
+instance : Sub TR := ⟨fun a b => mk' (a.v - b.v) (a.ok && b.ok)⟩
+/-- an exact zero absorbs the other factor (as in floats for a finite factor) -/
+instance : Mul TR := ⟨fun a b =>
+  if a.exactZero || b.exactZero then ⟨0, true⟩ else mk' (a.v * b.v) (a.ok && b.ok)⟩
+instance : Div TR := ⟨fun a b =>
+  if b.v == 0 then ⟨0, false⟩ else mk' (a.v / b.v) (a.ok && b.ok)⟩
+instance : Neg TR := ⟨fun a => ⟨-a.v, a.ok⟩⟩
+instance : LT TR := ⟨fun a b => a.v < b.v⟩
+instance : DecidableLT TR := fun a b => inferInstanceAs (Decidable (a.v < b.v))
+instance : BEq TR := ⟨fun a b => a.v == b.v⟩
+instance : OfNat TR 0 := ⟨⟨0, true⟩⟩
+instance : OfNat TR 1 := ⟨⟨1, true⟩⟩
+def sqrt (a : TR) : TR :=
+  match ratSqrt? a.v with
+  | some r => mk' r a.ok
+  | none => ⟨0, false⟩
+end TR
+
+/-! ### scalar codecs -/
+
+structure Codec (α : Type) where
+  /-- a configuration scalar -/
+  scalar : Json → R α
+  /-- a tensor entry (float32 bit pattern) -/
+  datum : Json → R α
+  out : α → Json
+  okOf : α → Bool
+  sqrt : α → α
+  natCast : Nat → α
+
+def f64C : Codec Float where
+  scalar := asFloat
+  datum := fun j => do
+    -- 8 hex digits: float32 (widened exactly); 16: binary64 (float64 parameter trees)
+    if (← asStr j).length > 10 then asFloat j else pure (← asFloat32 j).toFloat
+  out := floatToJson
+  okOf := fun _ => false
+  sqrt := Float.sqrt
+  natCast := Float.ofNat
+
+def exactC : Codec TR where
+  scalar := fun j => do pure ⟨← asRat j, true⟩
+  datum := fun j => do
+    let v ← f32ToRat (← parseHex (← asStr j))
+    pure ⟨v, true⟩
+  out := fun a => ratToJson a.v
+  okOf := fun a => a.ok
+  sqrt := TR.sqrt
+  natCast := fun n => ⟨(n : Rat), true⟩
+
+def graftOfString : String → R GraftType
+  | "NONE" => pure .none
+  | "SGD" => pure .sgd
+  | "ADAGRAD" => pure .adagrad
+  | "RMSPROP" => pure .rmsprop
+  | "RMSPROP_NORMALIZED" => pure .rmspropNormalized
+  | "SQRT_N" => pure .sqrtN
+  | "ADAGRAD_NORMALIZED" => pure .adagradNormalized
+  | s => throw s!"unknown graft type {s}"
+
+def tfGraftOfString : String → R TFGraftType
+  | "SGD" => pure .sgd
+  | "RMSPROP" => pure .rmsprop
+  | s => throw s!"unknown tearfree graft type {s}"
+
+section Run
+variable {α : Type} [Add α] [Mul α] [Sub α] [Div α] [Neg α] [LT α] [DecidableLT α] [BEq α]
+  [OfNat α 0] [OfNat α 1]
+
+def vecJson (c : Codec α) (v : List α) : Json := listToJson c.out v
+def okJson (c : Codec α) (v : List α) : Json := listToJson (fun x => Json.bool (c.okOf x)) v
+
+/-- `steps`: list of `{ "g": [...], "<second>": [...] }` -/
+def getSteps (c : Codec α) (j : Json) (second : String) : R (List (List α × List α)) := do
+  let steps ← asList (← field j "steps")
+  steps.mapM fun s => do
+    let g ← asListOf c.datum (← field s "g")
+    let p ← asListOf c.datum (← field s second)
+    if g.length ≠ p.length then throw "g and second vector differ in length" else pure (g, p)
+
+def getAcc0 (c : Codec α) (j : Json) (n : Nat) : R (List α) := do
+  match j.getObjVal? "acc0" with
+  | .ok (.arr a) => do
+      let acc ← a.toList.mapM c.datum
+      if acc.length ≠ n then throw "acc0 length" else pure acc
+  | _ => pure (List.replicate n 0)
+
+def resultJson (c : Codec α) (upds accs : List (List α)) : Json :=
+  obj [("upd", listToJson (vecJson c) upds), ("acc", listToJson (vecJson c) accs),
+       ("ok", listToJson (okJson c) upds), ("acc_ok", listToJson (okJson c) accs)]
+
+/-- fold of `dsTransform` over the history of one parameter, starting at step `step0` -/
+def dsRun (c : Codec α) (j : Json) : R Json := do
+  let clip : Option α ← match j.getObjVal? "clip" with
+    | .ok .null => pure none
+    | .ok v => do pure (some (← c.scalar v))
+    | .error _ => pure none
+  let cfg : DSConfig α := {
+    graftType := ← graftOfString (← getStr j "graft")
+    beta2 := ← c.scalar (← field j "beta2")
+    diagEps := ← c.scalar (← field j "diag_eps")
+    eps := ← c.scalar (← field j "eps")
+    lr := ← c.scalar (← field j "lr")
+    decoupledLr := ← getBool j "dlr"
+    clip := clip
+    start := ← getNat j "start" }
+  let skip ← getBool j "skip"
+  let step0 := (fieldD j "step0" (toJson (0 : Nat))).getNat?.toOption.getD 0
+  let steps ← getSteps c j "p"
+  let n := match steps with | [] => 0 | s :: _ => s.1.length
+  let acc0 ← getAcc0 c j n
+  let (_, _, upds, accs) := steps.foldl (fun (st : Nat × List α × List (List α) × List (List α)) s =>
+      let (t, acc, us, as) := st
+      let r := dsTransform c.sqrt c.natCast cfg t skip s.1 acc s.2
+      (t + 1, r.2, r.1 :: us, r.2 :: as)) (step0, acc0, [], [])
+  pure (resultJson c upds.reverse accs.reverse)
+
+/-- fold of `tfTransform` over the history of one leaf; `b` is the second-order update of each step -/
+def tfRun (c : Codec α) (j : Json) : R Json := do
+  let gt ← tfGraftOfString (← getStr j "graft")
+  let decay ← c.scalar (← field j "decay")
+  let eps ← c.scalar (← field j "eps")
+  let lr ← c.scalar (← field j "lr")
+  let start ← getNat j "start"
+  let masked ← getBool j "masked"
+  let steps ← getSteps c j "b"
+  let n := match steps with | [] => 0 | s :: _ => s.1.length
+  let acc0 ← getAcc0 c j n
+  let (_, _, upds, accs) := steps.foldl (fun (st : Nat × List α × List (List α) × List (List α)) s =>
+      let (t, acc, us, as) := st
+      let r := tfTransform c.sqrt gt decay eps lr t start masked s.1 acc s.2
+      (t + 1, r.2, r.1 :: us, r.2 :: as)) (0, acc0, [], [])
+  pure (resultJson c upds.reverse accs.reverse)
+
+end Run
+
+def withScalar (j : Json) (f64 : Json → R Json) (exact : Json → R Json) : R Json := do
+  match (← getStr j "scalar") with
+  | "f64" => f64 j
+  | "exact" => exact j
+  | s => throw s!"unknown scalar {s}"
+
+def ops : List Op := [
+  ("ds_run", fun j => withScalar j (dsRun f64C) (dsRun exactC)),
+  ("tf_run", fun j => withScalar j (tfRun f64C) (tfRun exactC)),
+  -- which parameters are excluded from preconditioning
+  ("skip", fun j => do
+    let shape ← getNats j "shape"
+    match (← getStr j "kind") with
+    | "ds" => pure (obj [("skip", Json.bool (dsSkip (← getNat j "rank_lt") (← getNat j "dim_gt") shape))])
+    | "tf" => pure (obj [("skip", Json.bool (tfMaskSkipped (← getBool j "rank1") (← getNat j "dim_gt") shape))])
+    | s => throw s!"unknown kind {s}")
+]
 
 end PrecondVerif.Drv.C05
